@@ -148,8 +148,9 @@ ENTRIES = {
              "stream). Randomness bypassing numpy.random / python random is visible only through differing outputs. Known findings on the current "
              "tree (KNOWN_FINDINGS.json): the legacy Gibbs samplers draw from np.random.* and an unseeded default_rng() (call sites enumerated; "
              "any other site is reported). The calculate_scores --seed defect was repaired (fix: 9b38441).",
-        technique="Coq proof that a resumption-tree model of randomised steps is explicit in its answer stream + trace conformance of the real "
-                  "operations to it + runtime trapping of global/unseeded generators"),
+        technique="Coq proof that a resumption-tree model of randomised steps is explicit in its answer stream; the randomised functions re-translated "
+                  "from /repo's source into that resumption type on every run and proved equal to the model programs (C18_model_is_source*) + trace "
+                  "conformance of the real operations to the extracted model + runtime trapping of global/unseeded generators"),
     "C20": dict(
         text="Theorems (all shapes, exact rationals): ModelEvaluation mse / mse_variance (across experiments, ddof 0) / inter_chain (distinct "
              "chain ids, unequal lengths) / mean_predictions / save-load (every constructible evaluation), calculate_mse, the single-effect dict "
